@@ -48,6 +48,9 @@ def generate(seed, tier, index, kf):
     r = random.Random(seed)
     sids = ["sa", "sb"][: r.randint(1, 2)]
     store, tok = mailstore.initial_store(r, ["inbox"], 1, 7, sparse=r.random() < 0.5, shapes=SHAPES)
+    if r.random() < 0.04 and store["mailboxes"][0]["msgs"]:
+        # a "poison" message: multiparts nested 300 deep (expensive to parse, hence rare)
+        r.choice(store["mailboxes"][0]["msgs"])["shape"] = "deep-nest"
     ops = []
     # make sure the observer has seen INBOX (ledger / reference bodies) first
     ops.append({"actor": "driver", "op": "probe", "mboxes": ["inbox"]})
